@@ -484,6 +484,9 @@ func plan(ts []target, thorough bool) []histSpec {
 		// "unbounded" (4.6x the bound; thorough: also at least 80 MiB / up to 200000 packets)
 		for _, sz := range []int{1400, 60000} {
 			add(t, shStartMiddles, sz, accLen(t, sz, thorough))
+			if t.name == "rtpmpeg4audio" {
+				add(t, shStartZeroMid, sz, accLen(t, sz, thorough))
+			}
 			if sz == 1400 && !thorough {
 				continue // (quick: the other accumulation shapes with large packets only)
 			}
